@@ -195,13 +195,17 @@ func parseSExpr(src string) (*SExpr, error) {
 			return &SExpr{Kind: q, Vars: vars, Body: b, Src: src}, nil
 		}
 	}
-	parts := splitTopLevel(s, "==>")
+	head := s
+	if p := topLevelQuantifier(s); p > 0 {
+		head = s[:p] // an implication arrow inside a trailing quantifier belongs to the quantifier
+	}
+	parts := splitTopLevel(head, "==>")
 	if len(parts) > 1 {
 		l, err := parseSExpr(parts[0])
 		if err != nil {
 			return nil, err
 		}
-		r, err := parseSExpr(strings.Join(parts[1:], "==>"))
+		r, err := parseSExpr(s[len(parts[0])+3:])
 		if err != nil {
 			return nil, err
 		}
@@ -213,6 +217,32 @@ func parseSExpr(src string) (*SExpr, error) {
 		inner := s[1 : len(s)-1]
 		if strings.Contains(inner, "==>") || strings.HasPrefix(strings.TrimSpace(inner), "forall ") || strings.HasPrefix(strings.TrimSpace(inner), "exists ") {
 			return parseSExpr(inner)
+		}
+	}
+	// "A && forall x :: B": the quantifier extends to the end of the expression
+	if p := topLevelQuantifier(s); p > 0 {
+		left := strings.TrimSpace(s[:p])
+		op := ""
+		for _, o := range []string{"&&", "||"} {
+			if strings.HasSuffix(left, o) {
+				op = o
+				left = strings.TrimSpace(strings.TrimSuffix(left, o))
+			}
+		}
+		if op != "" {
+			l, err := parseSExpr(left)
+			if err != nil {
+				return nil, err
+			}
+			r, err := parseSExpr(s[p:])
+			if err != nil {
+				return nil, err
+			}
+			k := "and"
+			if op == "||" {
+				k = "or"
+			}
+			return &SExpr{Kind: k, L: l, R: r, Src: src}, nil
 		}
 	}
 	// conjunction / disjunction whose operands contain quantifiers or ==> in parens
@@ -641,4 +671,31 @@ func hasProp(props []string, id string) bool {
 		}
 	}
 	return false
+}
+
+// topLevelQuantifier: byte offset of the first "forall "/"exists " keyword at
+// parenthesis depth 0 that is not at the start of s, or -1.
+func topLevelQuantifier(s string) int {
+	depth := 0
+	for i := 0; i < len(s); i++ {
+		switch s[i] {
+		case '(', '[', '{':
+			depth++
+		case ')', ']', '}':
+			depth--
+		case '"':
+			for i++; i < len(s) && s[i] != '"'; i++ {
+				if s[i] == '\\' {
+					i++
+				}
+			}
+		}
+		if depth == 0 && i > 0 && (strings.HasPrefix(s[i:], "forall ") || strings.HasPrefix(s[i:], "exists ")) {
+			c := s[i-1]
+			if c == ' ' || c == '&' || c == '|' || c == '(' {
+				return i
+			}
+		}
+	}
+	return -1
 }
